@@ -10,6 +10,7 @@ package main
 import (
 	"bufio"
 	"bytes"
+	"context"
 	"encoding/json"
 	"flag"
 	"fmt"
@@ -17,6 +18,7 @@ import (
 	"os/exec"
 	"path/filepath"
 	"strings"
+	"time"
 )
 
 type violation struct {
@@ -75,6 +77,7 @@ func main() {
 		fail(err.Error())
 	}
 	defer os.RemoveAll(tmp)
+	exit := func(code int) { os.RemoveAll(tmp); os.Exit(code) }
 	wasm := filepath.Join(harn, "bin", "corr.wasm")
 	for _, tg := range []string{*tags, "verif"} {
 		b := exec.Command("go", "build", "-tags", tg, "-o", wasm, "./cmd/corr")
@@ -115,26 +118,61 @@ func main() {
 		keep = append(keep, l)
 	}
 	os.WriteFile(ops, []byte(strings.Join(keep, "\n")+"\n"), 0o644)
-	nat := exec.Command(filepath.Join(harn, "bin", "corr"), "-exec", ops)
+	// the native run has a per-call watchdog (answer "timeout"); the js/wasm run is single-threaded and cannot have one, so
+	// it runs under a process deadline and an op that hangs natively is reported here and not sent to Node at all
+	nctx, ncancel := context.WithTimeout(context.Background(), 15*time.Minute)
+	defer ncancel()
+	nat := exec.CommandContext(nctx, filepath.Join(harn, "bin", "corr"), "-exec", ops)
 	nat.Env = goEnv()
+	nat.WaitDelay = 5 * time.Second
 	natOut, err := nat.Output()
 	if err != nil {
 		fail("native run failed: " + err.Error())
 	}
-	w := exec.Command(findNode(), runner, wasm, "-exec", ops)
+	var viol []violation
+	{
+		na := lines(natOut)
+		var keep2, na2 []string
+		for i, l := range keep {
+			if i < len(na) && strings.Contains(na[i], "timeout") {
+				if len(viol) < 4 {
+					viol = append(viol, violation{"the call does not return (per-call watchdog of the native run)", l, na[i], "returns"})
+				}
+				continue
+			}
+			keep2 = append(keep2, l)
+			if i < len(na) {
+				na2 = append(na2, na[i])
+			}
+		}
+		if len(keep2) != len(keep) {
+			keep = keep2
+			natOut = []byte(strings.Join(na2, "\n") + "\n")
+			os.WriteFile(ops, []byte(strings.Join(keep, "\n")+"\n"), 0o644)
+		}
+	}
+	deadline := 90*time.Second + time.Duration(len(keep))*40*time.Millisecond
+	wctx, wcancel := context.WithTimeout(context.Background(), deadline)
+	defer wcancel()
+	w := exec.CommandContext(wctx, findNode(), runner, wasm, "-exec", ops)
 	w.Env = goEnv()
+	w.WaitDelay = 5 * time.Second
 	var werr bytes.Buffer
 	w.Stderr = &werr
 	wasmOut, err := w.Output()
+	hung := wctx.Err() != nil
 	a, b := lines(natOut), lines(wasmOut)
-	var viol []violation
 	if len(b) < len(a) {
 		op := "?"
 		if len(b) < len(keep) {
 			op = keep[len(b)]
 		}
 		first := strings.SplitN(strings.TrimSpace(werr.String()), "\n", 2)[0]
-		viol = append(viol, violation{"the js/wasm build of the library stopped (crash or exit) at this op", op, "process-crash: " + first, a[min(len(b), len(a)-1)]})
+		if hung {
+			viol = append(viol, violation{fmt.Sprintf("the js/wasm build of the library did not return from this op (process deadline %s for %d ops)", deadline, len(keep)), op, "timeout", a[min(len(b), len(a)-1)]})
+		} else {
+			viol = append(viol, violation{"the js/wasm build of the library stopped (crash or exit) at this op", op, "process-crash: " + first, a[min(len(b), len(a)-1)]})
+		}
 	}
 	diff := 0
 	for i := 0; i < len(a) && i < len(b); i++ {
@@ -151,6 +189,6 @@ func main() {
 	}
 	json.NewEncoder(os.Stdout).Encode(out)
 	if len(viol) > 0 {
-		os.Exit(1)
+		exit(1)
 	}
 }
